@@ -82,6 +82,8 @@ pub struct IrEmitter<'a> {
     ///
     /// Used to disambiguate crate-internal module imports vs external crate imports when emitting `use` paths.
     internal_module_roots: HashSet<String>,
+    /// Function to mark with `#[test]` (set by `incan test` through IrCodegen::set_test_function)
+    test_function: Option<String>,
 }
 
 impl<'a> IrEmitter<'a> {
@@ -108,7 +110,13 @@ impl<'a> IrEmitter<'a> {
             const_string_literals: std::collections::HashMap::new(),
             routes: Vec::new(),
             internal_module_roots: HashSet::new(),
+            test_function: None,
         }
+    }
+
+    /// Mark one function as the `#[test]` entry of the generated harness.
+    pub fn set_test_function(&mut self, name: Option<String>) {
+        self.test_function = name;
     }
 
     /// Set the internal module roots (top-level module names) for a multi-file compilation.
